@@ -51,6 +51,7 @@ def main(ctx):
         jobs.append({"part": "reject", "tier": tier})
         jobs.append({"part": "rsvframes", "tier": tier})
         jobs.append({"part": "badoffer", "tier": tier})
+        jobs.append({"part": "multioffer", "tier": tier})
         ctx.pmap({"fw": fw, "nvx": "1"}, "props.c12:job", jobs)
     ctx.coverage["states"] = int(ctx.counters["tuples"])
     ctx.coverage["transitions"] = int(ctx.counters["evaluations"])
@@ -60,7 +61,7 @@ def main(ctx):
               "ext:deflate", "ext:bzip2", "ext:brotli", "prepared_messages", "streamed_messages",
               "rsv_frame_cases", "reject_cases", "reject_refused",
               "valid_response_accepted", "badoffer_cases", "takeover_both", "no_takeover_seen",
-              "small_window_seen"):
+              "small_window_seen", "multi_offer_cases", "interleaved_control_cases"):
         ctx.require(n)
 
 
@@ -138,7 +139,8 @@ def job(a):
     from mc import worker
     env = worker.ENV
     return {"lattice": _job_lattice, "transfer": _job_transfer, "reject": _job_reject,
-            "badoffer": _job_badoffer, "rsvframes": _job_rsvframes}[a["part"]](a, env)
+            "badoffer": _job_badoffer, "rsvframes": _job_rsvframes,
+            "multioffer": _job_multioffer}[a["part"]](a, env)
 
 
 def _viol(clause, label, detail, env, arg):
@@ -528,6 +530,107 @@ def _job_rsvframes(a, env):
                                                   "must fail the connection)" % (got, rcv.proto.state, rcv.transport.calls),
                                                   env, a))
     return {"evals": evals, "viol": viol, "stats": stats, "samples": [{"part": "rsvframes", "cases": evals}]}
+
+
+def _job_multioffer(a, env):
+    """a client offering several different compression extensions (every ordered selection of 2 or 3 of
+    deflate / bzip2 / brotli) against a server whose policy accepts one given kind: both ends run the
+    extension the server named in its answer, and messages in both directions arrive intact"""
+    import itertools
+    from harness import ws
+    from autobahn.websocket import compress as CM
+    kinds = {"deflate": (CM.PerMessageDeflateOffer, CM.PerMessageDeflateOfferAccept, CM.PerMessageDeflateResponse,
+                         CM.PerMessageDeflateResponseAccept, "permessage-deflate")}
+    if hasattr(CM, "PerMessageBzip2Offer"):
+        kinds["bzip2"] = (CM.PerMessageBzip2Offer, CM.PerMessageBzip2OfferAccept, CM.PerMessageBzip2Response,
+                          CM.PerMessageBzip2ResponseAccept, "permessage-bzip2")
+    if hasattr(CM, "PerMessageBrotliOffer"):
+        kinds["brotli"] = (CM.PerMessageBrotliOffer, CM.PerMessageBrotliOfferAccept, CM.PerMessageBrotliResponse,
+                           CM.PerMessageBrotliResponseAccept, "permessage-brotli")
+    stats = {"multi_offer_cases": 0, "tuples": 0, "messages_checked": 0}
+    viol = []
+    evals = 0
+
+    def c_accept(r):
+        for O, OA, R_, RA, _ in kinds.values():
+            if isinstance(r, R_):
+                return RA(r)
+    msgs = [(b"hello hello hello hello", False), (bytes(range(256)) * 3, True), (b"", True), (b"again hello hello", False)]
+    for n in (2, 3):
+        for order in itertools.permutations(sorted(kinds), n):
+            for want in order:
+                O, OA, R_, RA, name = kinds[want]
+
+                def s_accept(offers, _O=O, _OA=OA):
+                    for o in offers:
+                        if isinstance(o, _O):
+                            return _OA(o)
+                pair = ws.Pair(copts={"perMessageCompressionOffers": [kinds[k][0]() for k in order],
+                                      "perMessageCompressionAccept": c_accept},
+                               sopts={"perMessageCompressionAccept": s_accept})
+                label = "client offers %s, server accepts %s" % ("+".join(order), want)
+                evals += 1
+                stats["multi_offer_cases"] += 1
+                stats["tuples"] += 1
+                try:
+                    pair.pump()
+                except Exception as e:
+                    viol.append(_viol("multi-offer-handshake-raised", "multioffer", label + ": " + repr(e)[:200], env, a))
+                    continue
+                esc = [repr(x)[:160] for c_ in (pair.c, pair.s) for x in c_.escapes]
+                if esc:
+                    viol.append(_viol("escape", "multioffer", label + " " + esc[0], env, a))
+                    continue
+                engines = [getattr(x.proto._perMessageCompress, "EXTENSION_NAME", None) for x in (pair.c, pair.s)]
+                if pair.c.proto.state != 3 or pair.s.proto.state != 3 or engines != [name, name]:
+                    viol.append(_viol("multi-offer-engine-mismatch", "multioffer",
+                                      label + ": states %s/%s, compression engines client=%s server=%s (expected %s on "
+                                      "both)" % (pair.c.proto.state, pair.s.proto.state, engines[0], engines[1], name),
+                                      env, a))
+                    continue
+                for sender, receiver in ((pair.c, pair.s), (pair.s, pair.c)):
+                    n0 = len(receiver.proto.rec)
+                    for payload, binary in msgs:
+                        sender.proto.sendMessage(payload, binary)
+                    pair.pump()
+                    got = [(e[1], e[2]) for e in receiver.proto.rec[n0:] if e[0] == "onMessage"]
+                    stats["messages_checked"] += len(msgs)
+                    if got != msgs or receiver.proto.state != 3:
+                        viol.append(_viol("not-received-intact", "multioffer",
+                                          label + ": %d of %d messages delivered intact, receiver state %s" % (
+                                              sum(1 for g, m in zip(got, msgs) if g == m), len(msgs),
+                                              receiver.proto.state), env, a))
+                        break
+                else:
+                    # control frames between the frames of ONE fragmented compressed message (a ping of
+                    # the sender, and its pong answering the receiver's ping) leave the message intact
+                    for sender, receiver in ((pair.c, pair.s), (pair.s, pair.c)):
+                        n0 = len(receiver.proto.rec)
+                        part1, part2 = b"streamed part one, one, one " * 8, bytes(range(200)) + b"tail"
+                        sender.proto.beginMessage(True)
+                        sender.proto.sendMessageFrame(part1)
+                        sender.proto.sendPing(b"mid")
+                        pair.pump()
+                        receiver.proto.sendPing(b"rp")
+                        pair.pump()
+                        sender.proto.sendMessageFrame(part2)
+                        sender.proto.endMessage()
+                        sender.proto.sendMessage(b"after after after", False)
+                        pair.pump()
+                        got = [(e[1], e[2]) for e in receiver.proto.rec[n0:] if e[0] == "onMessage"]
+                        pings = [e[1] for e in receiver.proto.rec[n0:] if e[0] == "onPing"]
+                        stats["interleaved_control_cases"] = stats.get("interleaved_control_cases", 0) + 1
+                        stats["messages_checked"] += 2
+                        esc = [repr(x)[:160] for c_ in (pair.c, pair.s) for x in c_.escapes]
+                        if got != [(part1 + part2, True), (b"after after after", False)] or pings != [b"mid"] or esc \
+                                or receiver.proto.state != 3:
+                            viol.append(_viol("control-frame-inside-compressed-message", "multioffer",
+                                              label + ": a ping and a pong between the two frames of a compressed "
+                                              "message: delivered %r (lengths), pings %r, receiver state %s, escapes %s" % (
+                                                  [(len(g[0]), g[1]) for g in got], pings, receiver.proto.state, esc[:1]),
+                                              env, a))
+                            break
+    return {"evals": evals, "viol": viol, "stats": stats, "samples": [{"part": "multioffer", "cases": evals}]}
 
 
 def _job_reject(a, env):
